@@ -67,7 +67,10 @@ ASSUMPTIONS = [
     "unseeded wrappers (seed=None); collators registered on the root dataset; a collator handed directly to "
     "InterleavedSampler / DataLoader is not reachable from the dataset and outside the claim (TODO.md of the repo "
     "says the same)",
-    "dataset stacks are trees: no transform / collator instance is shared between two places",
+    "dataset stacks are trees: no transform / collator instance is shared between two places; the ONE exception that is "
+    "generated: main and interleaved datasets of an _InterleavedConcatDataset over one shared ROOT object under "
+    "different wrapper stacks (with collators on that shared root the case is judged by the Python oracle only, the "
+    "Coq tree model is not evaluated on it)",
     "the wrappers' own draws without a seed (MUGSMultiViewWrapper, KDMixWrapper: GlobalRng = the process-global NumPy "
     "RNG) count as worker-derived because the DataLoader seeds numpy / torch / random of every worker process from "
     "base_seed + worker_id (torch.utils.data._utils.worker._worker_loop; trusted, exercised by the thorough tier's real "
@@ -80,7 +83,9 @@ RULE = ("stacks: root (tensor or PIL data, 0-2 registered collators) under 1-4 l
         "transform wrappers over random transform trees, KDMultiViewWrapper (1-3 per-view trees), BYOL / minaug / MUGS "
         "multi-view wrappers, SemsegTransformWrapper, KDMixWrapper without seed (bare, above / below transform wrappers, "
         "below a multi-view wrapper), subset / shuffle / repeat / label-smoothing wrappers, KDConcatDataset "
-        "of sub-stacks, under ModeWrapper or _InterleavedConcatDataset of ModeWrappers; parent history (warm-up requests, "
+        "of sub-stacks, under ModeWrapper or _InterleavedConcatDataset of ModeWrappers (own roots, or - ~8% of the random "
+        "stacks plus 10 directed cases - 2-3 sub-stacks with DIFFERENT stochastic wrapper stacks over ONE shared root "
+        "object, hook entered through the concat dataset); parent history (warm-up requests, "
         "0-2 earlier runs of worker_init_fn on the parent object with other global seeds), 2 worker seeds + "
         "repeat (worker seeds 0 / 1 in ~12%, parent seed 0 in half of the cases), 0-2 earlier runs of the hook inside "
         "the worker copy with other seeds (differently many for the repeat: the last seed must win), "
@@ -232,8 +237,34 @@ def gen_inner(rng, depth=0, no_sched=False):
     return spec
 
 
+def shared_root_spec(rng, no_sched=False):
+    """an InterleavedSampler's dataset whose main and interleaved datasets share ONE root object under DIFFERENT
+    stochastic wrapper stacks (2-3 sub-stacks; sub-stacks with a concat layer bring further roots of their own)"""
+    first = gen_inner(rng, 0, no_sched)
+    subs = [first]
+    for _ in range(rng.choice([1, 1, 2])):
+        o = None
+        for _ in range(60):
+            c = gen_inner(rng, 0, no_sched)
+            if all(c["root"][k] == first["root"][k] for k in ("kind", "N", "S")) and c["layers"] != first["layers"]:
+                o = c
+                break
+        if o is None:
+            # same data, one more stochastic layer on top of the first stack's layers (index layers keep their range)
+            if first["root"]["kind"] == "pil":
+                top = {"w": "XTransformWrapper", "t": {"c": "KDComposeTransform", "k": [{"c": "KDRandAugment", "a": 0}]}}
+                o = {**first, "layers": [top], "mode": "x"}
+            else:
+                o = {**first, "layers": [{"w": "XTransformWrapper", "t": tree(rng, first["root"]["S"], no_sched)}], "mode": "x"}
+        subs.append({**o, "root": first["root"]})
+    return {"interleaved": subs, "share_root": True}
+
+
 def gen_spec(rng, no_sched=False):
-    if rng.random() < 0.15:
+    r = rng.random()
+    if r < 0.08:
+        return shared_root_spec(rng, no_sched)
+    if r < 0.2:
         return {"interleaved": [gen_inner(rng, 0, no_sched) for _ in range(rng.choice([1, 2, 3]))]}
     return gen_inner(rng, 0, no_sched)
 
@@ -331,6 +362,16 @@ def directed_cases(rng, info):
     sub = {"root": root(col=("KDIjepaMaskCollator",)), "layers": [x], "mode": "x"}
     out.append(mk_case(rng, {"root": root(), "layers": [x, {"w": "concat", "others": [sub, sub]}], "mode": "x"}))
     out.append(mk_case(rng, {"interleaved": [sub, {"root": root(col=("KDMixCollator", "PadSequencesCollator")), "layers": [x, x], "mode": "x"}]}))
+    # main + interleaved datasets of one InterleavedSampler over ONE root object, different stochastic wrapper stacks
+    # (transform wrapper / other transform wrapper / multi-view / semseg), entered through the concat dataset's hook
+    flipx = {"w": "XTransformWrapper", "t": {"c": "KDComposeTransform", "k": [{"c": "KDRandomHorizontalFlip", "a": 0}, leaf()]}}
+    mv = {"w": "KDMultiViewWrapper", "cfg": [[2, leaf()], [1, {"c": "KDRandomHorizontalFlip", "a": 0}]]}
+    sem = {"w": "SemsegTransformWrapper", "ts": [{"c": "KDSemsegRandomHorizontalFlip", "a": 0}, {"c": "KDSemsegRandomCrop", "a": 0}]}
+    for col in ((), ("KDMixCollator",)):
+        for stacks in (([x], [flipx]), ([x], [mv]), ([flipx, {"w": "SubsetWrapper", "idx": [1, 0, 2]}], [x], [sem]), ([], [x]), ([x], [])):
+            r_ = root(col=col)
+            out.append(mk_case(rng, {"interleaved": [{"root": r_, "layers": list(ls), "mode": "x"} for ls in stacks],
+                                     "share_root": True}))
     for c in ("KDMixCollator", "KDDinoMaskCollator", "KDIjepaMaskCollator", "PadSequencesCollator"):
         out.append(mk_case(rng, {"root": root(col=(c,)), "layers": [], "mode": "x class"}))
         out.append(mk_case(rng, {"root": root(col=(c, "KDMixCollator")), "layers": [x], "mode": "x class"}))
@@ -510,6 +551,18 @@ def shrink(case):
     if "interleaved" in spec:
         for s in spec["interleaved"]:
             yield mk_like(case, s)
+        subs = spec["interleaved"]
+        if spec.get("share_root"):
+            x0 = {"w": "XTransformWrapper", "t": {"c": "KDRandomCrop", "a": 0}}
+            if len(subs) > 2:
+                for j in range(len(subs)):
+                    yield mk_like(case, {**spec, "interleaved": subs[:j] + subs[j + 1:]})
+            if subs[0]["root"].get("col"):
+                yield mk_like(case, {**spec, "interleaved": [{**s, "root": {**s["root"], "col": []}} for s in subs]})
+            for j, s in enumerate(subs):
+                if s["root"]["kind"] == "img" and s["layers"] != [x0] and s["layers"]:
+                    for cand in ([x0], []):
+                        yield mk_like(case, {**spec, "interleaved": subs[:j] + [{**s, "layers": cand, "mode": "x"}] + subs[j + 1:]})
         return
     layers = spec["layers"]
     for i, l in enumerate(layers):
@@ -1112,8 +1165,16 @@ def oracle(case, obs):
 # ---------------------------------------------------------------------------
 # Coq side
 # ---------------------------------------------------------------------------
+def _shared_root_with_collators(spec):
+    return bool(spec.get("share_root")) and bool(spec["interleaved"][0]["root"].get("col"))
+
+
 def coq_applicable(case, obs):
-    return case.get("kind") == "sim" and "after" in obs and "sources" in obs
+    # (the Coq stack model is a TREE: a root object shared by several interleaved sub-stacks is exact in it as long as
+    # the root itself holds no generator slots; with collators registered on the shared root the object graph is a DAG
+    # - the collators are re-seeded once per sub-stack, the last run wins - and only the Python oracle applies)
+    return (case.get("kind") == "sim" and "after" in obs and "sources" in obs
+            and not _shared_root_with_collators(case["spec"]))
 
 
 def coq_case(case, obs):
@@ -1146,7 +1207,7 @@ def features(case, obs):
     yield "worker_info=" + ("None" if wi is None else "num_workers=%d" % wi[1])
     yield "parent_hooks=%d" % len(case.get("phist") or [])
     yield "worker_pre_hooks=" + "/".join(str(len(w)) for w in (case.get("wh") or [[], [], []]))
-    yield "top=" + ("interleaved" if "interleaved" in spec else "ModeWrapper")
+    yield "top=" + (("interleaved_shared_root" if spec.get("share_root") else "interleaved") if "interleaved" in spec else "ModeWrapper")
     specs = spec["interleaved"] if "interleaved" in spec else [spec]
     for sp in specs:
         yield "root=" + sp["root"]["kind"]
